@@ -85,6 +85,7 @@ func scriptText(calls [][]string) (string, []string) {
 }
 
 func concRunOne(ri int, run *concRun, spin bool) (*concRunOut, error) {
+	server.VerifTrackLocks.Store(true)
 	var mu sync.Mutex
 	var ord int64
 	var events []concEvent
